@@ -77,14 +77,15 @@ pub fn enable_events(sim: &SimFs, cfg: (usize, u64, usize, bool)) {
             ),
             Event::TrivialMove { level, file } => format!("M[{}][{}]", level, file),
             Event::Rotated { new_wal } => format!("N[{}]", new_wal),
-            Event::ManifestRecord { wal, prev_wal, next_file, pointers } => {
+            Event::ManifestRecord { wal, prev_wal, next_file, pointers, last_sequence } => {
                 let o = |x: &Option<u64>| x.map(|v| v.to_string()).unwrap_or("-".to_string());
                 format!(
-                    "L[{}][{}][{}][{}]",
+                    "L[{}][{}][{}][{}][{}]",
                     o(wal),
                     o(prev_wal),
                     o(next_file),
-                    pointers.iter().map(|(l, k)| format!("{}@{}", l, key_str(k))).collect::<Vec<_>>().join(";")
+                    pointers.iter().map(|(l, k)| format!("{}@{}", l, key_str(k))).collect::<Vec<_>>().join(";"),
+                    o(last_sequence)
                 )
             }
         };
